@@ -130,7 +130,19 @@ pub fn capture(s: &Shape, inp: &Inputs) -> Vec<DiffOp> {
                 let mut d = Compact::new(Replace::new(&mut cap), &inp.old, &inp.new);
                 algorithms::diff(s.alg, &mut d, &inp.old, inp.or.clone(), &inp.new, inp.nr.clone()).unwrap();
             }
-            cap.into_ops()
+            let ops = cap.into_ops();
+            // one Replace<Capture> tail shared by two Compact stages (the same diff twice): the
+            // tail must hold the ops twice
+            let mut tail = Replace::new(Capture::new());
+            for _ in 0..2 {
+                let mut d = Compact::new(&mut tail, &inp.old, &inp.new);
+                algorithms::diff(s.alg, &mut d, &inp.old, inp.or.clone(), &inp.new, inp.nr.clone()).unwrap();
+            }
+            let twice = tail.into_inner().into_ops();
+            let mut want = ops.clone();
+            want.extend(ops.iter().copied());
+            claim!(twice == want, "a Replace<Capture> tail reused for the same diff twice holds {:?}, expected the ops {:?} twice", twice, ops);
+            ops
         }
         CapEntry::Manual => {
             let mut d = Compact::new(Replace::new(Capture::new()), &inp.old, &inp.new);
